@@ -508,6 +508,14 @@ func init() {
 		fr.i.path.notes[k] = strOrDebug(args[1])
 		return nil, true
 	}
+	V["NoteBytes"] = func(fr *frame, args []value) (value, bool) {
+		k, _ := args[0].(string)
+		b := args[1].([]value)
+		cp := make([]value, len(b))
+		copy(cp, b)
+		fr.i.path.noteBytes[k] = cp
+		return nil, true
+	}
 	V["Symbolic"] = func(fr *frame, args []value) (value, bool) { return true, true }
 	V["Diag"] = func(fr *frame, args []value) (value, bool) {
 		env := fr.i.env
@@ -552,6 +560,9 @@ func (fr *frame) try(f value) (out value) {
 	defer func() {
 		if p := recover(); p != nil {
 			if _, isExit := p.(exitPanic); !isExit && engineAbort(p) {
+				if in.abortStack == "" {
+					in.abortStack = fr.stackAt()
+				}
 				panic(p)
 			}
 			in.depth = depth
